@@ -46,6 +46,60 @@ def short(obj, limit=400):
     return r if len(r) <= limit else r[:limit] + "..."
 
 
+_SIGS = {}
+_API = None
+
+
+def _api_names(key, bound):
+    """documented parameter names (without self) of a public function / method, from rv/models/api_names.json: the
+    parameter names of the pinned library, which a caller may use as keywords"""
+    global _API
+    if _API is None:
+        import json
+        import os
+        try:
+            _API = json.load(open(os.path.join(os.path.dirname(os.path.abspath(__file__)), "models", "api_names.json")))
+        except (IOError, ValueError):
+            _API = {}
+    mod = getattr(key, "__module__", None) or ""
+    for q in (getattr(key, "__qualname__", None), getattr(key, "__name__", None)):
+        if q and (mod + "." + q) in _API:
+            return _API[mod + "." + q]
+    if bound is not None and getattr(key, "__name__", None):
+        cls = type(bound)
+        q = "%s.%s.%s" % (cls.__module__, cls.__name__, key.__name__)
+        if q in _API:
+            return _API[q]
+    return None
+
+
+def _by_keyword(f, a):
+    """(args, {}) -> (first argument positional, the rest by their parameter names) for a library function or method
+    whose parameters can be given either way; unchanged when that cannot be told."""
+    import inspect
+    key = getattr(f, "__func__", f)
+    bound = getattr(f, "__self__", None)
+    ck = (key, type(bound))
+    try:
+        names = _SIGS.get(ck)
+    except TypeError:
+        return a, {}
+    if names is None:
+        names = _api_names(key, bound) or False
+        if not names:
+            try:
+                mod = getattr(key, "__module__", "") or ""
+                ps = list(inspect.signature(f).parameters.values())
+                if mod.startswith("mingus") and all(p.kind == p.POSITIONAL_OR_KEYWORD for p in ps):
+                    names = [p.name for p in ps]
+            except (TypeError, ValueError):
+                pass
+        _SIGS[ck] = names
+    if not names or len(a) > len(names):
+        return a, {}
+    return a[:1], dict(zip(names[1:], a[1:]))
+
+
 class Ctx(object):
     MAX_SAMPLES = 6
     MAX_VIOLATIONS = 40
@@ -139,6 +193,13 @@ class Ctx(object):
         """Call f; return ('ok', value) or ('exc', exception). Monitor exceptions propagate as
         violations recorded by the monitor itself (see contracts.py) and come back as ('mon', e)."""
         from rv import contracts
+        if len(a) >= 2 and not kw:
+            # every third call hands its optional-position arguments over by keyword (a caller may write either form)
+            self._calls = getattr(self, "_calls", 0) + 1
+            if self._calls % 3 == 0:
+                a, kw = _by_keyword(f, a)
+                if kw:
+                    self.counters["calls made with keyword arguments"] = self.counters.get("calls made with keyword arguments", 0) + 1
         try:
             return ("ok", f(*a, **kw))
         except contracts.MonitorViolation as e:
